@@ -668,7 +668,7 @@ func (s *session) drive(until []chan struct{}, onStuck func(si *stuckInfo)) stri
 func stuckKey(si *stuckInfo) string {
 	switch {
 	case si.class == "B":
-		return fmt.Sprintf("stuck:no-effect(%s,%s)", si.site, si.cmd)
+		return fmt.Sprintf("stuck:no-effect:%s@%s", si.cmd, si.site)
 	case si.kind == "none":
 		return fmt.Sprintf("stuck:dbg.beforewait(%s)->never-reported-suspended", si.site)
 	case si.bkind == "":
